@@ -38,3 +38,6 @@ def run(repo, res, tier):
     from .. import hookrules as _hk1, lexrules as _lx1
     _hk1.rule_lexer_args(repo, res)
     _lx1.rule_lex_text(repo, res)
+    # values with units are read back with the decoder's own real class (no float/numbers.Real test that ignores real_cls)
+    from .. import hookrules as _hk1b
+    _hk1b.rule_h2(repo, res)
